@@ -21,6 +21,7 @@ import cherab.tools.inversions as _pkg
 
 ID = "C20"
 KNOWN = "C20-dnorm-cx"
+KNOWN_CORNERS = "C20-corner-order-centres"   # while open: no per-voxel corner permutations (single switch in _corner_strategy)
 SHARDS = {"quick": 8, "thorough": 16}
 
 RULE = ("stencils: grid n_x,n_y in 2..12 incl. the extremes (column-major, y fastest, top to bottom, as documented), voxel width/height "
@@ -47,10 +48,13 @@ RULE = ("stencils: grid n_x,n_y in 2..12 incl. the extremes (column-major, y fas
         "anisotropy omitted (default 10). One case = one combination; all forms must reproduce the canonical float64 result; the same "
         "operators are re-used for a second flux map / anisotropy and the first call is repeated (bit-identical); all arguments must "
         "be bit-identical afterwards and overwriting them later must not change returned operators. Every forms case is non-trivial. "
-        "Distinct = distinct case hash (continuous parameters: practically every case).")
+        "Every grid of every sub-check lists the four corners of its voxels in a drawn order: one of the 8 perimeter walks, the "
+        "Z/N orders (itertools.product, meshgrid and their reversals), one random permutation for all voxels, or an independent "
+        "random permutation per voxel; the operators are compared with those of the test's order (1e-12 of the norm) and all "
+        "oracles apply unchanged. Distinct = distinct case hash (continuous parameters: practically every case).")
 ASSUMPTIONS = [
     "grids are built exactly as the docstring and test_admt.py describe (column-major, first voxel of a column on top, "
-    "vertex order of the test); other orderings are not documented input",
+    "any order of the four corners of a voxel: the docstring only asks for 'the vertices of each voxel'); other cell orderings are not documented input",
     "the continuous operator is written in the independent form Dpar*(lap f + f_x/R) + (Dperp-Dpar)*[n n:Hess f + "
     "(div(n) n + (n.grad)n).grad f + n_x (n.grad f)/R] with analytic gradients/Hessians of psi and f (checked against "
     "finite differences while developing)",
@@ -87,7 +91,9 @@ TOLERANCES = {
     "forms / re-use": "1e-12 * inf-norm (same values, same arithmetic; only summation order / BLAS path may differ: measured 4e-15); "
                       "repeat of an identical call: bit-identical",
 }
-REQUIRED_LABELS = ["stencils:no_interior", "stencils:interior", "stencils:nx!=ny", "stencils:n=2", "stencils:n=12", "stencils:dx==dy",
+REQUIRED_LABELS = ["%s:corners:%s" % (a_, b_) for a_ in ("stencils", "admt", "forms") for b_ in ("walk", "zn", "perm", "voxelperm")
+                   if not (b_ == "voxelperm" and is_open(KNOWN_CORNERS) and not os.environ.get("VERIF_C20_NO_EXCLUSION"))] + \
+                  ["refine:corners:zn", "refine:corners:perm", "stencils:no_interior", "stencils:interior", "stencils:nx!=ny", "stencils:n=2", "stencils:n=12", "stencils:dx==dy",
                    "stencils:z:straddles0", "stencils:z:centre_on_0", "stencils:z:asymmetric_about_0", "stencils:x:straddles0",
                    "admt:iso:curved", "admt:aniso:curved", "admt:near1:curved", "admt:aniso:int", "admt:aniso:float",
                    "admt:z:straddles0", "admt:z:centre_on_0", "admt:z:asymmetric_about_0", "admt:psi:zero_component",
@@ -241,18 +247,60 @@ def build_grid(nx, ny, dx, dy, x0, ytop):
     return {"ix": ix, "iy": iy, "x": xc, "y": yc, "verts": v, "m12": m12, "m21": m21, "interior": interior}
 
 
+_WALKS = [[(st_ + d * i) % 4 for i in range(4)] for st_ in range(4) for d in (1, -1)]      # 8 perimeter walks; _WALKS[0] = test_admt.py
+_ZN = [[2, 3, 1, 0], [2, 1, 3, 0], [0, 1, 3, 2], [0, 3, 1, 2]]     # itertools.product order, meshgrid order, and their reversals
+
+
+def _apply_corners(verts, corners):
+    """Re-list the four corners of every voxel: [mode, k] with mode walk (k 0..7) / zn (k 0..3) / perm (one permutation
+    for all voxels, seed k) / voxelperm (an independent permutation per voxel, seed k).  Returns (new array, label)."""
+    if not corners:
+        return verts, "walk0"
+    mode, k = corners[0], int(corners[1])
+    if mode == "walk":
+        return verts[:, _WALKS[k % 8], :].copy(), "walk"
+    if mode == "zn":
+        return verts[:, _ZN[k % 4], :].copy(), "zn"
+    if mode == "perm":
+        return verts[:, _perm(4, k), :].copy(), "perm"
+    out = verts.copy()
+    for i in range(verts.shape[0]):
+        out[i] = verts[i, _perm(4, k + 7919 * i), :]
+    return out, "voxelperm"
+
+
+def _corner_strategy():
+    if is_open(KNOWN_CORNERS) and not os.environ.get("VERIF_C20_NO_EXCLUSION"):   # per-voxel orders change the last bit of np.mean of the corners -> dx taken as ~1e-16
+        return st.one_of(st.tuples(st.just("walk"), st.integers(0, 7)), st.tuples(st.just("zn"), st.integers(0, 3)),
+                         st.tuples(st.just("perm"), st.integers(0, 2 ** 20))).map(list)
+    return st.one_of(st.tuples(st.just("walk"), st.integers(0, 7)), st.tuples(st.just("zn"), st.integers(0, 3)),
+                     st.tuples(st.just("perm"), st.integers(0, 2 ** 20)), st.tuples(st.just("voxelperm"), st.integers(0, 2 ** 20))).map(list)
+
+
 def _grid_from_case(g):
     nx, ny, dx, dy = int(g["nx"]), int(g["ny"]), float(g["dx"]), float(g["dy"])
     x0 = dx * (0.5 + float(g["rho"]))
     ytop = dy * float(g["tau"])
     grid = build_grid(nx, ny, dx, dy, x0, ytop)
+    grid["corners"] = g.get("corners")
     box = (x0 - dx / 2, x0 + (nx - 0.5) * dx, ytop - (ny - 0.5) * dy, ytop + dy / 2)
     return nx, ny, dx, dy, grid, box
 
 
 def _operators(ctx, grid, n):
-    with ctx.cut("generate_derivative_operators"):
-        ops = generate_derivative_operators(grid["verts"], grid["m12"], grid["m21"])
+    """Operators for the grid with the case's corner order; the docstring only asks for 'the vertices of each voxel', so
+    the result must not depend on the order the four corners are listed in (differential against the test's order)."""
+    verts, lab = _apply_corners(grid["verts"], grid.get("corners"))
+    ctx.label("corners:" + lab)
+    with ctx.cut("generate_derivative_operators[corners %s]" % lab):
+        ops = generate_derivative_operators(verts, grid["m12"], grid["m21"])
+    if lab != "walk0" and n <= 200 and isinstance(ops, dict):
+        with ctx.cut("generate_derivative_operators"):
+            ref = generate_derivative_operators(grid["verts"], grid["m12"], grid["m21"])
+        for k in ("Dx", "Dy", "Dxx", "Dxy", "Dyy"):
+            if k in ops and np.shape(ops[k]) == np.shape(ref[k]):
+                ctx.close(ops[k], ref[k], "corner-order:%s" % k, rtol=1e-12, scale=_norm(ref[k]),
+                          info="(corners listed as %r: %s differs from the perimeter-walk order of test_admt.py)" % (grid.get("corners"), k))
     ctx.check(isinstance(ops, dict) and set(ops) >= {"Dx", "Dy", "Dxx", "Dxy", "Dyy"}, "operators",
               lambda: "expected the five operators, got %r" % (sorted(ops) if isinstance(ops, dict) else type(ops),))
     for k in ("Dx", "Dy", "Dxx", "Dxy", "Dyy"):
@@ -293,7 +341,7 @@ def grid_strategy(draw, lo=2, hi=12, any_x=False):
     if any_x:   # column centre k sits at x = dx*(0.5+rho+k)
         rho = st.one_of(rho, st.floats(-40.0, 40.0), st.integers(0, nx - 1).map(lambda k: -0.5 - k),
                         st.just(-0.5 - (nx - 1) / 2.0), st.floats(-nx + 0.05, -0.55))
-    return {"nx": nx, "ny": ny, "dx": dx, "dy": dy, "rho": draw(rho), "tau": tau}
+    return {"nx": nx, "ny": ny, "dx": dx, "dy": dy, "rho": draw(rho), "tau": tau, "corners": draw(_corner_strategy())}
 
 
 def _grid_labels(ctx, g):
@@ -396,7 +444,7 @@ def refine_strategy(draw):
     c = st.floats(-1.0, 1.0)
     return {"nx": draw(n), "ny": draw(n), "Lx": draw(_log10(-2, 1)), "Ly": draw(_log10(-2, 1)),
             "rho": draw(st.one_of(st.floats(0.5, 1.5), st.floats(0.5, 5.0))), "tau": draw(st.floats(-5.0, 5.0)),
-            "psi": draw(psi_strategy(5.0, 0.5, y_free)), "aniso": _anisotropy(draw),
+            "psi": draw(psi_strategy(5.0, 0.5, y_free)), "aniso": _anisotropy(draw), "corners": draw(_corner_strategy()),
             "f": {"c0": draw(c), "poly": [draw(c) for _ in range(5)], "A": draw(_signed(0.2, 1.0)),
                   "kx": draw(k), "ky": draw(k), "px": draw(ph), "py": draw(ph)}}
 
@@ -555,6 +603,7 @@ def run_refine(case, ctx):
         nx, ny = nx0 * m, ny0 * m
         dx, dy = Lx / nx, Ly / ny
         grid = build_grid(nx, ny, dx, dy, xl + dx / 2, yt - dy / 2)
+        grid["corners"] = case.get("corners")
         n = nx * ny
         ops = _operators(ctx, grid, n)
         psi = _terms_eval(psi_t, grid["x"], grid["y"])[0]
@@ -605,7 +654,7 @@ def forms_strategy(draw):
         nx, ny = draw(st.integers(2, 7)), draw(st.integers(2, 7))
         dx, dy = draw(st.sampled_from([2, 4])), draw(st.sampled_from([2, 4, 6]))
         grid = {"int": True, "nx": nx, "ny": ny, "dx": dx, "dy": dy, "x0": draw(st.integers(1, 40)) + dx // 2,
-                "ytop": draw(st.integers(-20, 20))}
+                "ytop": draw(st.integers(-20, 20)), "corners": draw(_corner_strategy())}
     else:
         grid = draw(grid_strategy(hi=8))
     pick = lambda forms, n_general: st.sampled_from(forms if integer else forms[:n_general])   # noqa: E731
@@ -681,6 +730,7 @@ def run_forms(case, ctx):
     if integer:
         nx, ny, dx, dy = int(g["nx"]), int(g["ny"]), int(g["dx"]), int(g["dy"])
         grid = build_grid(nx, ny, float(dx), float(dy), float(g["x0"]), float(g["ytop"]))
+        grid["corners"] = g.get("corners")
         box = (g["x0"] - dx / 2, g["x0"] + (nx - 0.5) * dx, g["ytop"] - (ny - 0.5) * dy, g["ytop"] + dy / 2)
     else:
         nx, ny, dx, dy, grid, box = _grid_from_case(g)
@@ -713,7 +763,7 @@ def run_forms(case, ctx):
     A0 = _admt(ctx, grid, ops0, psi64, float(dx), float(dy), a0, n, radii=R64.copy())
     tolA = 1e-12 * _norm(A0)
     # ---------------- generate_derivative_operators: other container / dtype / layout / key orders
-    verts = _array_form(grid["verts"], vform)
+    verts = _array_form(_apply_corners(grid["verts"], grid.get("corners"))[0], vform)
     m12 = _map_form(grid["m12"], case["mform"][0], case["mseed"])
     m21 = _map_form(grid["m21"], case["mform"][1], case["mseed"] + 7)
     keep = (copy.deepcopy(verts), list(m12.items()), list(m21.items()))
